@@ -10,6 +10,21 @@ BASELINE_OFF = ("cd /repo && export GOFLAGS=-mod=mod GOPROXY=off GOSUMDB=off GOT
 
 # id -> (category, technique, level text, level note, design ref)
 CHECKS = {
+    "C01": ("exploration",
+            "bounded-exhaustive program family x deviation-bounded schedule exploration on the real runtime, reference interpreter as oracle",
+            "All programs of two template families (dataflow: 12 dimensions with at most 3 (quick) / 4 (thorough) leaving their base value; nested disabling: 0-3(4) wrapper levels x 6 controls x all valuations) are executed on the real martian runtime (InvokePipeline, RefreshState/StepNodes loop, real metadata files) with an in-package job manager and a model job; every job's _args (and chunk_defs/chunk_outs of joins) and the top-level _outs are compared with an independent denotational interpreter of the MRO IR. For each program the default schedule and all 1-deviation schedules (each job held until quiescence, lagged, start-only; each StepNodes frontier-order occurrence permuted; thorough: pairs of held jobs, every map-iteration site of package core) are explored.",
+            "jobs follow the mrjob/adapter metadata protocol (model job); stage functions come from the fixed /verif library; nesting depth, sizes and the value alphabet are bounded by the families",
+            "DESIGN.md 4/C01"),
+    "C02": ("exploration",
+            "deviation-bounded schedule exploration of the real scheduler loop over a program family, ordering oracle on the event log",
+            "Same executions as C01 (nested-disable family additionally with each job held): at every job submission the event log must show that every stage call the reference interpreter derives the job's arguments, disabling conditions (own and enclosing) and map sources from has finished all its forks, that all preflights of enclosing pipelines finished, and that split < chunks < join inside each fork.",
+            "dependencies are read at stage level (Martian resolves references through pipeline boundaries); completion latency is modelled as 'journal entry appears N iterations late'",
+            "DESIGN.md 4/C02"),
+    "C03": ("exploration",
+            "deviation-bounded schedule exploration over a program family, job multiset compared with the reference interpreter",
+            "Same executions as C01: the multiset of submitted jobs (call path x phase x chunk) must equal the multiset the reference interpreter denotes, no job key is submitted twice, no metadata directory receives two submissions, and calls that are disabled or map over nothing execute no job.",
+            "fork naming is treated as an implementation detail (jobs are matched per call path and phase)",
+            "DESIGN.md 4/C03"),
     "C18": ("exploration",
             "bounded-exhaustive string enumeration, real shell as oracle",
             "Every string of length <=3 over a 27-symbol shell-adversarial alphabet (longer over the 9 shell-active symbols, plus every single byte) is quoted by the real shellSafeQuote and evaluated by dash and bash, which must print the original bytes; whole job scripts rendered by the real RemoteJobManager.jobScript for every shipped template are executed with an argv/environment dumping program for each role (program path, argument, environment value, stdout path, work dir). Exhaustive within the stated alphabet and length bounds.",
